@@ -82,7 +82,8 @@ def check_bounds(ctx, cfg, site, seed, act, tree, trace, run, start):
 
 
 SEEDS = ["http://site.example/", "http://site.example/", "http://site.example/chain/1", "http://site.example/deep/1.json", "http://site.example/loop/a",
-         "http://site.example/red/1", "http://site.example/api/data.json", "http://site.example/nest", "http://site.example/hub"]
+         "http://site.example/red/1", "http://site.example/api/data.json", "http://site.example/nest", "http://site.example/hub",
+         "http://site.example/api/feed.json", "http://site.example/api/feed.json"]
 
 
 def gen_site(r):
@@ -96,7 +97,11 @@ def gen_site(r):
     for i in range(1, k + 1):
         s.add("http://site.example/exact/%d" % i, status=302, location="/exact/%d" % (i + 1))
     s.add("http://site.example/exact/%d" % (k + 1), assets=["/img/a.png", "/deep/1.json"], outlinks=["/page2"])
-    s.pages["http://site.example/"]["assets"] += r.sample(["/exact/1", "/chain/7", "/deep/3.json", "/hubred", "/nest"], r.randrange(0, 3))
+    # JSON / XML documents whose extension-less URLs come back from the asset extractors as outlinks
+    s.add("http://site.example/api/feed.json", ctype="application/json", kind="json",
+          assets=["http://site.example/img/a.png", "http://site.example/api/feed2.json"], outlinks=["http://site.example/page/2", "http://other.example/next", "http://dc.example/in"])
+    s.add("http://site.example/api/feed2.json", ctype="application/json", kind="json", assets=[], outlinks=["http://site.example/page/3"])
+    s.pages["http://site.example/"]["assets"] += r.sample(["/exact/1", "/chain/7", "/deep/3.json", "/hubred", "/nest", "/api/feed.json"], r.randrange(0, 3))
     return s
 
 
@@ -122,12 +127,66 @@ def run_scenarios(ctx, n):
     return run
 
 
+FAIL_MODES = ["reset", 503, 500, 429, 408, "cf", 404, 200]
+
+
+def visits(ctx, n):
+    """whole crawls: a page whose assets fail in scripted ways, attempt by attempt; the origin's log gives the requests per URL"""
+    from . import e2e
+    r = ctx.rng
+    scns = []
+    for k in range(n):
+        mr = r.choice([0, 1, 1, 2])
+        site, scripts, assets = {}, {}, []
+        for i in range(r.randrange(2, 7)):
+            ln = r.randrange(1, 6)
+            sc = [r.choice(FAIL_MODES) for _ in range(ln)]
+            if r.random() < 0.5:
+                sc = [r.choice(["reset", 503]) if j % 2 == 0 else r.choice([503, "reset", 429]) for j in range(ln)]   # mixed failure kinds, never good
+            path = "/v%d/a%d.png" % (k, i)
+            att = []
+            for m in sc:
+                att.append({"reset": True} if m == "reset" else {"cf": True} if m == "cf" else {"status": m})
+            site[path] = {"ctype": "image/png", "body": {"kind": "png", "size": 50, "seed": i}, "attempts": att}
+            scripts[path] = sc
+            assets.append(path)
+        site["/v%d/" % k] = {"ctype": "text/html", "body": {"kind": "html", "assets": assets, "outlinks": []}}
+        scns.append(({"useHQ": True, "seeds": ["/v%d/" % k], "site": site, "stop": {"when": "drain", "timeoutMs": 60000},
+                      "cfg": {"workers": 1, "maxConcurrentAssets": r.choice([1, 4]), "maxRetry": mr, "httpTimeout": 3, "hqBatchSize": 1,
+                              "warcAsync": k % 2 == 1}}, scripts, mr))
+    results = e2e.run_many([s for s, _, _ in scns], timeout=120, workers=10)
+    lines, keys = [], []
+    for (scn, scripts, mr), (rep, err) in zip(scns, results):
+        rp = {"domain": "e2e", "scenario": scn}
+        if not rep.get("drained"):
+            ctx.violation("the crawl of a page with failing assets did not finish: %s %s" % (
+                {k: v for k, v in rep.items() if k not in ("requests", "warcRecords", "jobFiles")}, "" if rep.get("panic") else err[-300:]), rp)
+            continue
+        by = e2e.requests_by_key(rep)
+        for path, sc in scripts.items():
+            got = len(by.get(path, []))
+            ctx.count("visits")
+            ctx.case(json.dumps([mr, sc]), len(set(map(str, sc))) >= 2)
+            if got > mr + 1:
+                ctx.violation("%s was requested %d times in one visit with --max-retry %d (site script %s)" % (path, got, mr, sc), dict(rp, url=path))
+            lines.append(json.dumps({"op": "visit", "maxRetry": mr, "script": sc}))
+            keys.append((scn, path, got, sc, mr))
+    if lines:
+        rc, model, e = core.run_model("stage", lines, timeout=300)
+        for (scn, path, got, sc, mr), m in zip(keys, model):
+            want = int(m.split(" ")[0].split("=")[1])
+            ctx.count("visit-end:" + m.split("end=")[1].split(":")[0])
+            if want != got:
+                ctx.disagree({"domain": "e2e", "scenario": scn, "url": path, "script": sc, "maxRetry": mr}, "requests=%d" % got, m)
+
+
 def run(ctx):
     n = 3000 if ctx.thorough() else 120
+    visits(ctx, 150 if ctx.thorough() else 8)
     run_ = run_scenarios(ctx, n)
     ctx.sample({"first_steps": [(json.dumps(op)[:160], out[:160]) for op, out in run_.log[:6]]})
-    ctx.assumptions += ["the retry loop of archive() is not executed at this level: its bound is the theorem c06_attempts over the regenerated loop facts "
-                        "(start 0, <= MaxRetry, ++, counter written nowhere else); it runs for real in the end-to-end scenarios of C02",
+    ctx.assumptions += ["the retry loop of archive() runs for real in whole crawls against an origin that fails attempt by attempt as scripted; the "
+                        "requests it sends per URL are compared with the `visit` model and judged against max-retry + 1",
                         "termination of a seed as a whole (pass count) is checked on the implementation, not proved: the theorems bound each "
                         "decision and the per-tree redirect / hops invariant",
                         "the extractors and the URL parser are oracles for the model (their results in this run are replayed)"]
